@@ -38,7 +38,8 @@ class Prober:
             pr.stdin.flush()
             self.calls += len(todo)
             for w in todo:
-                self.cache[w] = self.parse(pr.stdout.readline().rstrip("\n"))
+                line = pr.stdout.readline().rstrip("\n")
+                self.cache[w] = self.parse("panic" if line.startswith("panic wleft=") else line)
         return [self.cache[w] for w in words]
 
     def one(self, w):
@@ -155,13 +156,16 @@ def count_values(p, r, L, values, rng, label):
     return None, info
 
 
-def steps(p, lo, hi, max_steps=200):
+def steps(p, lo, hi, max_steps=200, seeds=()):
     """All maximal constant runs of the (assumed monotone / piecewise constant) function w -> p.one(w) on [lo, hi], found by
     recursive bisection with real calls: returns [(first, last, value)] in increasing order, or None if more than
-    max_steps runs would be needed (the function is not a small step function)."""
-    vlo, vhi = p.one(lo), p.one(hi)
+    max_steps runs would be needed (the function is not a small step function). `seeds`: further points probed at the start
+    (a run that begins and ends inside a stretch whose end points agree is only found if a seed falls into it)."""
+    pts = sorted(set([lo, hi] + [w for w in seeds if lo < w < hi]))
+    vals = p.many(pts) if hasattr(p, "many") else [p.one(w) for w in pts]
+    vlo = vals[0]
     out = []
-    stack = [(lo, vlo, hi, vhi)]
+    stack = [(pts[i], vals[i], pts[i + 1], vals[i + 1]) for i in range(len(pts) - 1)]
     bounds = []          # (w, value at w-1, value at w): positions where the value changes
     while stack:
         a, va, b, vb = stack.pop()
